@@ -1,8 +1,8 @@
 package rules
 
 import (
-	"regexp"
 	"fmt"
+	"regexp"
 	"strings"
 
 	"golang.org/x/tools/go/ssa"
